@@ -209,17 +209,24 @@ func genSlow(g *vh.Gen) (string, string) {
 	return s.line(n)
 }
 
-// replay: a history longer than the listener queue — the join itself waits for the writer.
+// replay: a history longer than the listener queue. The constructor (what the web handler calls BEFORE
+// it starts the socket writer) must return at once — AddListener only submits an op —; the replay then
+// fills the queue and waits for the writer (slow-listener-like stall), proceeds as the writer drains, and a
+// witness listener and Sync keep working.
 func genReplay(g *vh.Gen) (string, string) {
 	s := newSc(g)
-	n := 101 + g.Intn(30)
+	n := 101 + []int{0, 49, g.Intn(30)}[g.Intn(3)]
+	s.add("m1:-")
 	for i := 0; i < n+g.Intn(5); i++ {
 		s.nextID["a"]++
 		s.add("d:" + vh.HS("a") + ":" + vh.HS(fmt.Sprint(s.nextID["a"])))
 	}
-	s.add("a0:2:-")
+	s.add(fmt.Sprintf("a0:%s:-", g.Pick("1", "2")))
 	s.add("s")
 	s.add("w0:100")
+	s.add("s")
+	s.nextID["b"]++
+	s.add("d:" + vh.HS("b") + ":" + vh.HS(fmt.Sprint(s.nextID["b"])))
 	s.add("s")
 	return s.line(n)
 }
@@ -274,7 +281,7 @@ func gen(g *vh.Gen) {
 		n, ops := genSlow(g)
 		g.Emit("hub", n, ops)
 	}
-	for i := 0; i < g.N(1, 20); i++ {
+	for i := 0; i < g.N(2, 30); i++ {
 		n, ops := genReplay(g)
 		g.Emit("hub", n, ops)
 	}
